@@ -45,7 +45,8 @@ def main():
         for d in demos:
             os.makedirs(os.path.dirname(os.path.join(wt, d)), exist_ok=True)
             shutil.copy(os.path.join(awt, d), os.path.join(wt, d))
-        demo_cmd = meta["demo_cmd"]
+        import re
+        demo_cmd = re.sub(r"[;&]+\s*git checkout (dnsrocks/)?go\.(mod|sum)( (dnsrocks/)?go\.sum)?\s*$", "", meta["demo_cmd"].strip())
         cwd = os.path.join(wt, "dnsrocks")
         rc0, out0 = sh(demo_cmd, cwd)
         log["demo_without_patch"] = {"rc": rc0, "tail": out0[-600:]}
